@@ -5,7 +5,7 @@
 From Coq Require Import List NArith ZArith Bool Sorted Permutation.
 From Storage Require Import Base.Bytes Codec.CodecBase Codec.Varint Codec.VarintProofs
   Codec.CompoundKey Codec.CompoundKeyProofs Codec.FieldCodec Codec.FieldCodecProofs
-  Codec.StrOrderProofs Codec.Containers Codec.ContainersProofs Codec.Persist Codec.PersistProofs Codec.Getters Codec.GettersProofs.
+  Codec.StrOrderProofs Codec.Containers Codec.ContainersProofs Codec.Persist Codec.PersistProofs Codec.Getters Codec.GettersProofs Codec.CheckerRepr Codec.CheckerReprProofs.
 Import ListNotations.
 Open Scope N_scope.
 
@@ -307,3 +307,50 @@ Theorem copy_filtered_roundtrip : forall (filter : list str -> bool) (b : bucket
   canon (Sub b) -> copy_bucket filter b [] = Ok (prune_entries filter [] b).
 Proof. exact copy_filtered. Qed.
 Print Assumptions copy_filtered_roundtrip.
+
+(* ---- the value the checker is handed over as ------------------------------------------------------- *)
+(* Model Codec/CheckerRepr.v.  boltz.FieldChecker is an interface; ProceedWithSet and
+   WithFieldOverrides take exactly the nil INTERFACE for "no restriction".  A nil map / nil pointer /
+   nil slice / nil func inside the interface is a checker like any other: what its IsUpdated answers. *)
+
+(* what a representation selects, read off the Go value (nil interface: everything; nil
+   MapFieldChecker: nothing; a wrapper asks the wrapped value about the mapped name), is what the
+   setters consult *)
+Theorem checker_repr_selection : forall (r : checker_repr) (name : str),
+  proceed (repr_checker r) name = repr_selects r name.
+Proof. exact repr_checker_selects. Qed.
+Print Assumptions checker_repr_selection.
+
+(* a restricted write depends on the checker value only through the fields it selects: two
+   representations with the same selection leave the same bucket (or fail alike) *)
+Theorem checker_is_its_selection : forall (c1 c2 : checker) (ops : list fop) (b : bucket),
+  (forall name, proceed c1 name = proceed c2 name) -> apply_ops c1 ops b = apply_ops c2 ops b.
+Proof. exact apply_ops_ext_lemma. Qed.
+Print Assumptions checker_is_its_selection.
+
+(* ... through PersistContext too: derived contexts, overrides, every store's part of the entity *)
+Theorem persist_checker_is_its_selection : forall (ch : chain) (c1 c2 : checker) (cr : bool) (id : str)
+    (prog : list pstmt) (b : bucket),
+  (forall name, proceed c1 name = proceed c2 name) ->
+  persist ch c1 cr id prog b = persist ch c2 cr id prog b.
+Proof. exact persist_ext_lemma. Qed.
+Print Assumptions persist_checker_is_its_selection.
+
+(* a checker that selects no field - boltz.MapFieldChecker(nil), MapFieldChecker{}, a wrapper around
+   either, a typed nil pointer whose IsUpdated answers false - writes nothing: every setter taking a
+   checker (all but SetNil) leaves the bucket as it is *)
+Theorem empty_selection_writes_nothing : forall (r : checker_repr) (ops : list fop) (b : bucket),
+  (forall name, repr_selects r name = false) -> forallb op_restricted ops = true ->
+  apply_ops (repr_checker r) ops b = Ok b.
+Proof. exact empty_selection_lemma. Qed.
+Print Assumptions empty_selection_writes_nothing.
+
+(* ... and an Update through PersistContext under it leaves the whole entity as it is, in every
+   store's part, whatever contexts are derived and whatever overrides are put on them *)
+Theorem empty_selection_persist_writes_nothing : forall (ch : chain) (r : checker_repr) (id : str)
+    (prog : list pstmt) (b b' : bucket),
+  (forall name, repr_selects r name = false) ->
+  forallb pstmt_restricted prog = true ->
+  persist ch (repr_checker r) false id prog b = Ok b' -> b' = b.
+Proof. exact persist_empty_selection_lemma. Qed.
+Print Assumptions empty_selection_persist_writes_nothing.
